@@ -7,6 +7,8 @@
 //                registers it in a live table, fini() looks the serial up (the library relocates
 //                elements bitwise, so identity is the serial, not the address); init() can be told
 //                to fail by the explorer (<= 2 injected failures per history)
+//        finionly  harness traits {0,fini,16} (shape of reference_array's traits): elements are handed over bytewise by the
+//                caller, an all-zero slot is the valid empty value; such content can not be copy-constructed
 //        array / meta / ident / conf / cmd   the library's own managed element types
 //                (mpt_array_traits, mpt_meta_reference_traits, mpt_identifier_traits,
 //                mpt_config_item_traits, mpt_command_traits) holding counting tokens / long names;
@@ -27,7 +29,7 @@
 
 using namespace mc;
 const char *mc_id = "C05";
-const char *mc_rule = "history BFS with canonical-state dedupe: op sequences (set/insert/cut/reserve/detach/clone/release/reduce/trim/skip/copy/move/set_length/append, "
+const char *mc_rule = "history BFS with canonical-state dedupe: op sequences (set/insert/slice/cut/reserve(same, other, compatible, same-finaliser-other-size, untyped)/detach/clone/release/reduce/trim/skip/copy/move(also between element types)/set_length/append, "
                       "front/middle/end/past-the-end, shared/unshared, <=2 injected constructor failures) from 8 preloaded start states per element kind, plus C++ template arrays; "
                       "nontrivial = distinct (state,op) transitions in which library code constructed, destroyed or (de)referenced at least one element";
 
@@ -57,7 +59,7 @@ static int g_owner;              // owner of elements constructed right now
 static int elem_init(void *ptr, const void *src, int tr)
 {
 	NoLib nl;
-	size_t sz = tr == 2 ? 8 : 16;
+	size_t sz = tr == 2 ? 8 : (tr == 4 ? 32 : 16);
 	uint32_t magic = tr == 2 ? MAGIC8 : MAGIC16;
 	if (g_active) ++g_events;
 	if ((uintptr_t) ptr % sz) cbviol("misaligned-construct", "init() called on an address that is not a multiple of the element size");
@@ -75,13 +77,14 @@ static int elem_init(void *ptr, const void *src, int tr)
 	if (g_active) ++g_made;
 	uint32_t e[4] = { magic, (uint32_t) g_tab.size(), origin, (uint32_t) tr };
 	g_tab.push_back(Rec{1, (uint8_t) (g_active ? 0 : g_owner), (uint8_t) tr, origin});
-	memcpy(ptr, e, sz);
+	memcpy(ptr, e, sz > 16 ? 16 : sz);
+	if (sz > 16) memset((uint8_t *) ptr + 16, 0, sz - 16);
 	return 0;
 }
 static void elem_fini(void *ptr, int tr)
 {
 	NoLib nl;
-	size_t sz = tr == 2 ? 8 : 16;
+	size_t sz = tr == 2 ? 8 : 16;     // 32-byte elements share the finaliser of the 16-byte ones (stamp in the first half)
 	uint32_t magic = tr == 2 ? MAGIC8 : MAGIC16;
 	if (g_active) ++g_events;
 	if ((uintptr_t) ptr % sz) cbviol("misaligned-destroy", "fini() called on an address that is not a multiple of the element size");
@@ -100,7 +103,17 @@ static int init16b(void *p, const void *s) { return elem_init(p, s, 1); }
 static int init8(void *p, const void *s) { return elem_init(p, s, 2); }
 static void fini16(void *p) { elem_fini(p, 0); }
 static void fini8(void *p) { elem_fini(p, 2); }
-static const mpt::type_traits T16(16, fini16, init16), T16B(16, fini16, init16b), T8(8, fini8, init8);
+static int init32(void *p, const void *s) { return elem_init(p, s, 4); }
+// element type with a finaliser only (shape of reference_array's traits): an all-zero slot is the valid empty value,
+// elements are created by the caller and handed over bytewise (mpt_array_set with data = transfer of ownership)
+static void finiF(void *p)
+{
+	static const uint8_t zero[16] = { 0 };
+	if (!__asan_region_is_poisoned(p, 16) && !((uintptr_t) p % 16) && !memcmp(p, zero, 16)) { if (g_active) ++g_events; return; }
+	elem_fini(p, 3);
+}
+// T16B: compatible with T16 (same finaliser, same size); T32: same finaliser but another size; T8: unrelated type
+static const mpt::type_traits T16(16, fini16, init16), T16B(16, fini16, init16b), T8(8, fini8, init8), T32(32, fini16, init32), TF(16, finiF, 0);
 
 // ------------------------------------------------------------------ counting tokens (never freed while a system lives)
 struct CountBuf : public mpt::buffer
@@ -158,17 +171,17 @@ static std::string coarse(const std::string &g)
 // =====================================================================================================
 // buffer level system
 // =====================================================================================================
-enum Kind { K_SERIAL, K_ARR, K_META, K_IDENT, K_CONF, K_CMD, NKINDS };
-static const char *kind_name[] = { "serial", "array", "meta", "ident", "conf", "cmd" };
+enum Kind { K_SERIAL, K_ARR, K_META, K_IDENT, K_CONF, K_CMD, K_FINI, NKINDS };
+static const char *kind_name[] = { "serial", "array", "meta", "ident", "conf", "cmd", "finionly" };
 static const char LONGNAME[] = "a-name-that-does-not-fit-inline-0123456789";
 static const char LONGNAME2[] = "another-long-name-for-sub-items-0123456789";
 
 // mirror of the private header in front of buffers made by _mpt_buffer_alloc (64 bytes: refcount, psize, flags, pad, buffer)
 static uintptr_t alloc_refs(const mpt::buffer *b) { return *(const uintptr_t *) ((const char *) b - 32); }
 
-enum Code { SET, BSET, INS, CUT, RESERVE, DETACH, CLONE, RELEASE, REDUCE, NEWBUF, TRIM, SKIP, COPY, MOVE, SETLEN, APPEND, ARM, ARMSLOT, SUBBUF, NCODES };
+enum Code { SET, BSET, INS, CUT, RESERVE, DETACH, CLONE, RELEASE, REDUCE, NEWBUF, TRIM, SKIP, COPY, MOVE, SETLEN, APPEND, ARM, ARMSLOT, SUBBUF, SLICE, NCODES };
 static const char *code_name[] = { "array_set", "buffer_set", "array_insert", "buffer_cut", "array_reserve", "detach", "array_clone", "release", "array_reduce", "new_buffer",
-                                   "buffer::trim", "buffer::skip", "buffer::copy", "buffer::move", "content::set_length", "buffer::append", "arm-ctor-failure", "set-handler", "add-subitems" };
+                                   "buffer::trim", "buffer::skip", "buffer::copy", "buffer::move", "content::set_length", "buffer::append", "arm-ctor-failure", "set-handler", "add-subitems", "array_slice" };
 enum Pos { P0, P1, PEND, PPAST, PLAST, PBEFORE };     // 0, 1, N, N+1, -1 (relative to end), N-1
 static const char *pos_name[] = { "0", "1", "end", "end+1", "-1", "end-1" };
 struct OpDef { int code, h, a, b, c; };
@@ -193,7 +206,9 @@ struct BSys {
 
 	mpt::array *H(int h) { return reinterpret_cast<mpt::array *>(&hb[h]); }
 
-	static void build_ops(int kind)
+	// full = false: without the two "compatible type" reserve letters (they double the serial state space; the closure job
+	// of the thorough tier runs without them, every depth-bounded job with them)
+	static void build_ops(int kind, bool full = true)
 	{
 		ops.clear();
 		for (int h = 0; h < 2; ++h) {
@@ -201,7 +216,8 @@ struct BSys {
 			for (int p : {P0, PEND}) ops.push_back(OpDef{BSET, h, p, 1, 1});
 			for (int p : {P0, P1, PEND, PPAST}) for (int c = 1; c <= 2; ++c) ops.push_back(OpDef{INS, h, p, c, 0});
 			for (auto pc : {std::make_pair(P0, 1), std::make_pair(P1, 1), std::make_pair(PBEFORE, 1), std::make_pair(P0, 2), std::make_pair(P1, 0), std::make_pair(P0, 0), std::make_pair(PEND, 1)}) ops.push_back(OpDef{CUT, h, pc.first, pc.second, 0});
-			for (int n : {0, 1, 2}) for (int t = 0; t < 3; ++t) ops.push_back(OpDef{RESERVE, h, n, t, 0});     // n: 0 elements / current / capacity+1 ; t: same / other / untyped
+			for (int n : {0, 1, 2}) for (int t = 0; t < (kind == K_SERIAL && full ? 5 : 3); ++t) ops.push_back(OpDef{RESERVE, h, n, t, 0});     // n: 0 elements / current / capacity+1 ; t: same / other / untyped / compatible (same finaliser+size) / same finaliser, other size
+			for (auto pc : {std::make_pair(P0, 1), std::make_pair(P0, -1), std::make_pair(PEND, 1), std::make_pair(PPAST, 1)}) ops.push_back(OpDef{SLICE, h, pc.first, pc.second, 0});   // (0,1) / (0,N+1) / (N,1) / (N+1,1)
 			for (int n : {0, 1, 2}) ops.push_back(OpDef{DETACH, h, n, 0, 0});                                    // smaller / equal / larger than capacity
 			ops.push_back(OpDef{CLONE, h, 0, 0, 0}); ops.push_back(OpDef{RELEASE, h, 0, 0, 0}); ops.push_back(OpDef{REDUCE, h, 0, 0, 0});
 			for (int f : {0, (int) mpt::BufferNoCopy, (int) mpt::BufferImmutable}) ops.push_back(OpDef{NEWBUF, h, f, 0, 0});
@@ -225,7 +241,9 @@ struct BSys {
 		case BSET: return fmt("h%d.buffer_set(compatible traits,pos=%s,n=1)", o.h, pos_name[o.a]);
 		case INS: return fmt("h%d.array_insert(pos=%s,n=%d)+construct", o.h, pos_name[o.a], o.b);
 		case CUT: return fmt("h%d.buffer_cut(off=%s,n=%d)", o.h, pos_name[o.a], o.b);
-		case RESERVE: return fmt("h%d.array_reserve(%s,%s)", o.h, o.a == 0 ? "0" : (o.a == 1 ? "N" : "capacity+1"), o.b == 0 ? "same traits" : (o.b == 1 ? "other traits" : "untyped"));
+		case RESERVE: { static const char *tn[] = { "same traits", "other traits", "untyped", "compatible traits", "traits with the same finaliser but twice the size" };
+			return fmt("h%d.array_reserve(%s,%s)", o.h, o.a == 0 ? "0" : (o.a == 1 ? "N" : "capacity+1"), tn[o.b]); }
+		case SLICE: return o.b < 0 ? fmt("h%d.array_slice(off=0,n=N+1)", o.h) : fmt("h%d.array_slice(off=%s,n=%d)", o.h, pos_name[o.a], o.b);
 		case DETACH: return fmt("h%d.detach(%s)", o.h, o.a == 0 ? "N-1" : (o.a == 1 ? "N" : "capacity+1"));
 		case CLONE: return fmt("array_clone(h%d <- h%d)", o.h, 1 - o.h);
 		case RELEASE: return fmt("h%d.release", o.h);
@@ -276,6 +294,27 @@ struct BSys {
 		cb[0]->unref(); cb[1]->unref(); cm[0]->unref(); cm[1]->unref();
 		free(src); src = 0;
 	}
+	// exactly sized block of n source elements for mpt_array_set/mpt_buffer_set.  Usually a bytewise copy of the harness' own
+	// source elements (they stay the harness' own, the library has to copy-construct); for the finaliser-only kind fresh
+	// elements whose ownership passes to the buffer when the call succeeds
+	uint8_t *make_data(int n)
+	{
+		NoLib nl;
+		uint8_t *data = (uint8_t *) malloc(n * ks);
+		if (kind != K_FINI) { memcpy(data, src, n * ks); return data; }
+		bool a = g_active; g_active = false; g_owner = 0;
+		for (int i = 0; i < n; ++i) elem_init(data + i * ks, 0, 3);
+		g_active = a;
+		return data;
+	}
+	void settle_data(uint8_t *data, int n, bool accepted)
+	{
+		NoLib nl;
+		bool a = g_active; g_active = false;
+		if (kind == K_FINI && !accepted) for (int i = 0; i < n; ++i) elem_fini(data + i * ks, 3);
+		g_active = a;
+		free(data);
+	}
 	// construct elements in a region the library handed out uninitialised (insert / append)
 	void construct(const mpt::type_traits *t, void *ptr, size_t bytes, int first)
 	{
@@ -285,6 +324,8 @@ struct BSys {
 		for (size_t o = 0; o + t->size <= bytes; o += t->size, ++n) {
 			if (t == &T16 || t == &T16B) elem_init(p + o, 0, 0);
 			else if (t == &T8) elem_init(p + o, 0, 2);
+			else if (t == &T32) elem_init(p + o, 0, 4);
+			else if (t == &TF) { if (n & 1) memset(p + o, 0, 16); else elem_init(p + o, 0, 3); }
 			else if (t == KT) {
 				// even slots copy the first source element, odd ones are default constructed; allocations count as library ones
 				if (kind == K_CMD || (n & 1) || LIB(KT->init(p + o, src)) < 0) LIB(KT->init(p + o, 0));
@@ -304,12 +345,13 @@ struct BSys {
 		cb[0] = new CountBuf; cb[1] = new CountBuf; cm[0] = new CountMeta; cm[1] = new CountMeta;
 		KT2 = 0; maxe = 4;
 		switch (kind) {
-		case K_SERIAL: KT = &T16; KT2 = &T16B; maxe = 6; break;
+		case K_SERIAL: KT = &T16; KT2 = &T16B; maxe = (run.tier == Thorough && init == 0) ? 5 : 6; break;   // closure job: 5 elements (one capacity growth) keep the single long job short
 		case K_ARR: KT = mpt::mpt_array_traits(); break;
 		case K_META: KT = mpt::mpt_meta_reference_traits(); break;
 		case K_IDENT: KT = mpt::mpt_identifier_traits(); break;
 		case K_CONF: KT = mpt::mpt_config_item_traits(); break;
 		case K_CMD: KT = mpt::mpt_command_traits(); break;
+		case K_FINI: KT = &TF; break;
 		}
 		ks = KT->size;
 		make_src();
@@ -345,9 +387,11 @@ struct BSys {
 		g_active = true;
 		if (flags >= 0) { hb[h] = LIB(mpt::_mpt_buffer_alloc(n * ks, flags)); hb[h]->_content_traits = KT; }
 		for (int i = 0; i < n; ++i) {
-			const void *d = (i & 1) ? 0 : src;
-			if (flags >= 0) LIB(mpt::mpt_buffer_set(hb[h], KT, i * ks, d, ks));
-			else LIB(mpt::mpt_array_set(H(h), KT, ks, d, i));
+			uint8_t *d = (i & 1) ? 0 : make_data(1);
+			bool ok;
+			if (flags >= 0) ok = LIB(mpt::mpt_buffer_set(hb[h], KT, i * ks, d, ks)) >= 0;
+			else ok = LIB(mpt::mpt_array_set(H(h), KT, ks, d, i)) != 0;
+			if (d) settle_data(d, 1, ok);
 		}
 		g_active = false;
 	}
@@ -369,7 +413,7 @@ struct BSys {
 
 	// ------------------------------------------------------------------ observation
 	size_t N(int h) const { return hb[h] ? hb[h]->_used / ks : 0; }
-	int traits_id(const mpt::type_traits *t) const { return !t ? 0 : (t == KT ? 1 : (t == KT2 ? 2 : (t == &T8 ? 3 : 4))); }
+	int traits_id(const mpt::type_traits *t) const { return !t ? 0 : (t == KT ? 1 : (t == KT2 ? 2 : (t == &T8 ? 3 : (t == &T32 ? 5 : 4)))); }
 	bool is_alloc(const mpt::buffer *b) const { return ledger_is_live((const char *) b - 32); }
 
 	struct Scan { std::set<uint32_t> seen; std::set<const void *> blocks; size_t nblocks; long tok[4]; std::map<CmdRec *, int> recs; std::string cls; std::string g, d; };
@@ -397,8 +441,9 @@ struct BSys {
 		const uint8_t *p = (const uint8_t *) (b + 1);
 		for (size_t i = 0; i * sz < b->_used; ++i, p += sz) {
 			std::string where = fmt("slot %zu", i);
-			if (t == &T16 || t == &T16B || t == &T8) {
+			if (t == &T16 || t == &T16B || t == &T8 || t == &T32 || t == &TF) {
 				uint32_t magic = t == &T8 ? MAGIC8 : MAGIC16, s[2]; memcpy(s, p, 8);
+				if (t == &TF) { static const uint8_t zero[16] = { 0 }; if (!memcmp(p, zero, 16)) { sc.cls += 'e'; continue; } }
 				sc.cls += 'x';
 				if (s[0] == (DEAD | (magic & 0xffff))) bad(sc, "destroyed-element-in-use", where + fmt(" still counts as used but holds element #%u which was destroyed", s[1]));
 				else if (s[0] != magic) bad(sc, "non-element-in-use", where + (s[0] == FAILED ? " counts as used although its constructor failed" : " counts as used but was never constructed"));
@@ -528,14 +573,15 @@ struct BSys {
 		case BSET: if (!b || !KT2 || b->_content_traits != KT || (pos + 1) * ks > b->_size) return false; ac = poscls(pos, 1) + ",compatible-traits"; break;
 		case INS: if (std::max(pos, n) + o.b > maxe) return false; ac = pos > n ? "past-end" : (pos == n ? "append" : "inside"); break;
 		case CUT: if (!b || pos < 0) return false; ac = o.b == 0 ? "truncate" : (pos + o.b > n ? "out-of-range" : (pos + o.b == n ? "inside,to-end" : "inside,tail-kept")); break;
-		case RESERVE: if (o.a == 2 && b && b->_size > 64) return false; ac = std::string(o.b == 0 ? "same-type" : (o.b == 1 ? "other-type" : "untyped")) + (o.a == 2 ? ",grow" : (o.a == 1 ? ",fit" : ",zero")); break;
+		case RESERVE: if (o.a == 2 && b && b->_size > 64) return false; ac = std::string(o.b == 0 ? "same-type" : (o.b == 1 ? "other-type" : (o.b == 2 ? "untyped" : (o.b == 3 ? "compatible-type" : "same-finaliser-other-size")))) + (o.a == 2 ? ",grow" : (o.a == 1 ? ",fit" : ",zero")); break;
+		case SLICE: { long cnt = o.b < 0 ? n + 1 : o.b; if (pos + cnt > maxe) return false; ac = pos + cnt <= n ? "inside" : (pos > n ? "grow,past-end" : "grow"); break; }
 		case DETACH: if (!b || (o.a == 2 && b->_size > 64) || (o.a == 0 && !n)) return false; ac = o.a == 0 ? "smaller" : (o.a == 1 ? "equal" : "larger"); break;
 		case CLONE: if (!ob) return false; ac = b ? "replace" : "assign"; break;
 		case RELEASE: case REDUCE: if (!b) return false; break;
 		case NEWBUF: if (b) return false; ac = fmt("flags=%d", o.a); break;
 		case TRIM: case SKIP: if (!b || (o.a == 1 && n < 1)) return false; ac = o.a == 0 ? "none" : ((o.a == 1 && n > 1) ? "part" : "all"); break;
 		case COPY: if (!b || !ob) return false; ac = N(1 - h) < (size_t) n ? "shorter-source" : (N(1 - h) == (size_t) n ? "same-length" : "longer-source"); break;
-		case MOVE: if (!b || !ob || b->_content_traits != ob->_content_traits) return false; ac = b == ob ? "self" : "other"; break;
+		case MOVE: if (!b || !ob) return false; ac = b == ob ? "self" : (b->_content_traits == ob->_content_traits ? "other" : "other,type-mismatch"); break;
 		case SETLEN: if (!b || (o.a == 1 && !n) || (o.a == 2 && n + 1 > maxe)) return false; ac = o.a == 2 ? "grow" : "shrink"; break;
 		case APPEND: if (!b || n + 1 > maxe) return false; break;
 		case ARM: if (arm || fails_used >= 2) return false; break;
@@ -558,12 +604,12 @@ struct BSys {
 		g_active = true;
 		switch (o.code) {
 		case SET: {
-			uint8_t *data = 0;
-			if (o.c) { data = (uint8_t *) malloc(o.b * ks); memcpy(data, src, o.b * ks); }   // exactly sized copy of the harness' source elements (bytewise: they stay the harness' own)
+			uint8_t *data = o.c ? make_data(o.b) : 0;
 			void *ret = LIB(mpt::mpt_array_set(H(h), KT, o.b * ks, data, pos));
 			refused = !ret;
-			free(data);
+			if (data) settle_data(data, o.b, !refused);
 			break; }
+		case SLICE: { long cnt = o.b < 0 ? n + 1 : o.b; refused = !LIB(mpt::mpt_array_slice(H(h), pos * ks, cnt * ks)); break; }
 		case BSET: refused = LIB(mpt::mpt_buffer_set(b, KT2, pos * ks, src, ks)) < 0; break;
 		case INS: {
 			void *ret = LIB(mpt::mpt_array_insert(H(h), pos * ks, o.b * ks));
@@ -574,7 +620,7 @@ struct BSys {
 		case CUT: refused = LIB(mpt::mpt_buffer_cut(b, pos * ks, o.b * ks)) < 0; break;
 		case RESERVE: {
 			size_t len = o.a == 0 ? 0 : (o.a == 1 ? n * ks : (capel + 1) * ks);
-			refused = !LIB(mpt::mpt_array_reserve(H(h), len, o.b == 0 ? KT : (o.b == 1 ? (kind == K_SERIAL ? &T8 : &T16) : 0)));
+			refused = !LIB(mpt::mpt_array_reserve(H(h), len, o.b == 0 ? KT : (o.b == 1 ? (kind == K_SERIAL ? &T8 : &T16) : (o.b == 2 ? 0 : (o.b == 3 ? KT2 : &T32)))));
 			break; }
 		case DETACH: {
 			size_t len = o.a == 0 ? (n - 1) * ks : (o.a == 1 ? n * ks : (capel + 1) * ks);
@@ -642,6 +688,13 @@ struct BSys {
 		if (g_failed) r.count("injected constructor failures", g_failed);
 		if (was_shared && g_copied && !refused) r.count("shared buffer: elements copy-constructed into a private copy", g_copied);
 		if (o.code == SET && !refused && g_destroyed && ac.find("tail-kept") != std::string::npos) r.count("overwrite in the middle, tail kept");
+		if (o.code == MOVE && ac.find("mismatch") != std::string::npos) { r.count("buffer::move between different element types (accepted or refused)"); r.count(refused ? "buffer::move between different element types: refused" : "buffer::move between different element types: accepted"); }
+		if (o.code == SLICE && g_failed) r.count("array_slice with a failing constructor");
+		if (o.code == RESERVE && o.b == 4 && !refused && n) r.count("array_reserve to a type with the same finaliser but another size on a non-empty buffer");
+		if (kind == K_FINI && was_shared && n && (refused || hb[h] != b) && (o.code == SET || o.code == INS || o.code == SLICE || o.code == DETACH)) {
+			r.count("finaliser-only elements: write through a shared handle (private copy made or refused)");
+			r.count(refused ? "finaliser-only elements: private copy of a shared buffer refused" : "finaliser-only elements: shared buffer replaced by a private one");
+		}
 		if ((o.code == SET || o.code == INS || o.code == SETLEN) && !refused && ac.find(o.code == SETLEN ? "grow" : "past-end") != std::string::npos && g_made) r.count("gap default-constructed");
 		return true;
 	}
@@ -1193,6 +1246,7 @@ static int depth_of(Tier t, const std::string &job)
 	bool first = job.size() > 2 && !job.compare(job.size() - 2, 2, ":0");
 	if (!job.compare(0, 10, "buf:serial") || !job.compare(0, 7, "buf:cmd")) return q ? 3 : (first ? 64 : 4);
 	if (!job.compare(0, 8, "buf:conf") || !job.compare(0, 8, "buf:meta")) return q ? 2 : 4;
+	if (!job.compare(0, 12, "buf:finionly")) return q ? 3 : 4;
 	if (!job.compare(0, 4, "buf:")) return q ? 3 : 5;
 	if (!job.compare(0, 6, "cxx:0:") || !job.compare(0, 6, "cxx:1:")) return q ? 4 : (first ? 64 : 5);
 	return q ? 3 : 6;     // reference_array / item_array
@@ -1227,6 +1281,9 @@ static void requires_(Run &r)
 	                       "elements destroyed by array_reserve", "elements destroyed by detach", "elements destroyed by buffer::copy", "elements destroyed by content::set_length",
 	                       "elements constructed by array_set", "elements constructed by array_insert", "elements constructed by detach", "elements constructed by buffer::copy",
 	                       "injected constructor failures", "shared buffer: elements copy-constructed into a private copy", "overwrite in the middle, tail kept", "gap default-constructed",
+	                       "buffer::move between different element types (accepted or refused)", "array_slice with a failing constructor",
+	                       "array_reserve to a type with the same finaliser but another size on a non-empty buffer",
+	                       "finaliser-only elements: write through a shared handle (private copy made or refused)",
 	                       "teardown: last handle gone, nothing alive" })
 		r.require(k);
 	if (r.tier == Thorough) r.require("jobs explored to closure (every reachable bounded state expanded)");
@@ -1236,7 +1293,7 @@ void mc_explore(Run &r, const std::string &job)
 	requires_(r);
 	int kind; uint64_t init;
 	if (parse_buf(job, kind, init)) {
-		BSys::build_ops(kind);
+		BSys::build_ops(kind, !(r.tier == Thorough && kind == K_SERIAL && init == 0));
 		bfs<BSys>(r, [&]() { return new BSys(r, kind, init); }, depth_of(r.tier, job));
 		return;
 	}
@@ -1252,7 +1309,7 @@ void mc_replay(Run &r, const std::string &job, const Vec &v)
 {
 	int kind; uint64_t init;
 	if (parse_buf(job, kind, init)) {
-		BSys::build_ops(kind);
+		BSys::build_ops(kind, !(r.tier == Thorough && kind == K_SERIAL && init == 0));
 		bfs_replay_one<BSys>(r, [&]() { return new BSys(r, kind, init); }, v);
 		return;
 	}
